@@ -70,7 +70,7 @@ func runC11(r *mc.Run) {
 			w.PKI = T.WithLeaf(w.Plat)
 		}
 		sp := world.QuoteSpec{PKI: w.PKI, Auth: world.Fill("c11-auth", authLens[al]), Extra: world.Fill("c11-extra", extraLens[el]), NulAfter: nul == 1,
-			FillLabel: "c11"}
+			FillLabel: "c11", PceSvn: 0x0d07, QeSvn: 0x0208}
 		sp.TeeTcbSvn = []byte{3, []byte{0, 3, 0x0a}[svn1], 5, 0, 0, 0, 0, 0, 0, 0, 0, 0, 0, 0, 0, 1}
 		sp.MrSeamSigner = world.Fill("c11-seam", 48)
 		sp.SeamAttrs = []byte{1, 2, 3, 4, 5, 6, 7, 8}
@@ -114,6 +114,12 @@ func runC11(r *mc.Run) {
 			ti.Fmspc = strings.ToUpper(ti.Fmspc)
 		}
 		match := world.PlatformLevel(w.Plat, tee, "UpToDate")
+		if tee[1] != 0 && c.Choose("level-tdx-components-0-1", 2) == 1 {
+			// with a non-zero module version the first two TDX components are not compared with the level's
+			nm := append([]world.Comp(nil), match.Tcb.Tdx...)
+			nm[0].Svn, nm[1].Svn = 255, int(tee[1])+1
+			match.Tcb.Tdx = nm
+		}
 		var before []world.Level
 		for k := 0; k < lpos && k < 3; k++ {
 			// levels that do not match: one component above the platform's, each with a different non-UpToDate status
